@@ -106,6 +106,7 @@ Fixpoint argmax_from (l : list F) (i best : nat) (cur : F) : option nat :=
 Definition argmax (l : list F) : option nat :=
   match l with [] => None | a :: _ => argmax_from l 0 0 a end.
 End ArrayOps.
+Arguments mat : clear implicits.
 
 (** * 3. The predictors *)
 Section Predictors.
@@ -114,8 +115,8 @@ Context (dot mdot : list F -> list F -> F).
 
 (** ** OLS, elastic net: [*y = x.dot(&w) + b] *)
 Definition lin_row (w : list F) (b : F) (x : list F) : F := add o (mul o (dot x w) (one o)) b.
-Definition lin_default (X : mat (F := F)) : list F := repeat (zero o) (length X).
-Definition lin_inplace (p : nat) (w : list F) (b : F) (X : mat) (y : list F) : option (list F) :=
+Definition lin_default (X : mat F) : list F := repeat (zero o) (length X).
+Definition lin_inplace (p : nat) (w : list F) (b : F) (X : mat F) (y : list F) : option (list F) :=
   guard (Nat.eqb (length X) (length y))                                  (* assert_eq!(x.nrows(), y.len()) *)
   (guard (rect p X && Nat.eqb p (length w))                               (* dot_shape_error *)
          (Some (vec_op_scalar (add o) (matvec o dot X w (uninit o (length X))) b))).
@@ -123,7 +124,7 @@ Definition lin_inplace (p : nat) (w : list F) (b : F) (X : mat) (y : list F) : o
 (** ** Tweedie GLM: [ypred = x.dot(&coef) + intercept; *y = link.inverse(&ypred)] with
     [inverse = mapv inv] (identity: clone; log: exp; logit: 1/(1+exp(-x))) *)
 Definition glm_row (inv : F -> F) (w : list F) (b : F) (x : list F) : F := inv (lin_row w b x).
-Definition glm_inplace (inv : F -> F) (p : nat) (w : list F) (b : F) (X : mat) (y : list F) : option (list F) :=
+Definition glm_inplace (inv : F -> F) (p : nat) (w : list F) (b : F) (X : mat F) (y : list F) : option (list F) :=
   guard (Nat.eqb (length X) (length y))
   (guard (rect p X && Nat.eqb p (length w))
          (Some (mapv inv (vec_op_scalar (add o) (matvec o dot X w (uninit o (length X))) b)))).
@@ -135,7 +136,7 @@ Definition logit_prob (expf : F -> F) (w : list F) (b : F) (x : list F) : F := l
 Definition logit_row {C} (expf : F -> F) (w : list F) (b thr : F) (pos neg : C) (x : list F) : C :=
   if leb o thr (logit_prob expf w b x) then pos else neg.                 (* *prob >= self.threshold *)
 Definition logit_inplace {C} (expf : F -> F) (p : nat) (w : list F) (b thr : F) (pos neg : C)
-    (X : mat) (y : list C) : option (list C) :=
+    (X : mat F) (y : list C) : option (list C) :=
   guard (Nat.eqb (length X) (length y))
   (guard (Nat.eqb p (length w))                                           (* assert_eq!(x.ncols(), params.len()) *)
   (guard (rect p X)
@@ -143,12 +144,12 @@ Definition logit_inplace {C} (expf : F -> F) (p : nat) (w : list F) (b thr : F) 
       Some (loop_zip (fun prob => if leb o thr prob then pos else neg) probs y)))).
 
 (** ** multinomial logistic regression: [probs = x.dot(&W) + &b]; per row [classes[argmax]] *)
-Definition scores_row (k : nat) (W : mat) (b : list F) (x : list F) : list F :=
+Definition scores_row (k : nat) (W : mat F) (b : list F) (x : list F) : list F :=
   map2 (add o) (map (fun c => mdot x c) (columns o k W)) b.
-Definition mlogit_row {C} (k : nat) (W : mat) (b : list F) (classes : list C) (dflt : C) (x : list F) : option C :=
+Definition mlogit_row {C} (k : nat) (W : mat F) (b : list F) (classes : list C) (dflt : C) (x : list F) : option C :=
   option_map (fun i => nth i classes dflt) (argmax o (scores_row k W b x)).
-Definition mlogit_inplace {C} (p k : nat) (W : mat) (b : list F) (classes : list C) (dflt : C)
-    (X : mat) (y : list C) : option (list C) :=
+Definition mlogit_inplace {C} (p k : nat) (W : mat F) (b : list F) (classes : list C) (dflt : C)
+    (X : mat F) (y : list C) : option (list C) :=
   guard (Nat.eqb (length X) (length y))
   (guard (Nat.eqb p (length W))                                           (* assert_eq!(x.ncols(), params.nrows()) *)
   (guard (rect p X && rect k W && Nat.eqb k (length b))                   (* array shapes / broadcast *)
@@ -156,24 +157,24 @@ Definition mlogit_inplace {C} (p k : nat) (W : mat) (b : list F) (classes : list
       loop_zip_opt (fun prow => option_map (fun i => nth i classes dflt) (argmax o prow)) probs y))).
 
 (** ** multi-task elastic net: [*y = x.dot(&W) + &b]; only the number of rows of the target is asserted *)
-Definition mtl_inplace {T} (p k : nat) (W : mat) (b : list F) (X : mat) (y : list T) : option mat :=
+Definition mtl_inplace {T} (p k : nat) (W : mat F) (b : list F) (X : mat F) (y : list T) : option (mat F) :=
   guard (Nat.eqb (length X) (length y))
   (guard (rect p X && Nat.eqb p (length W) && rect k W && Nat.eqb k (length b))
          (Some (mat_op_row (add o) (matmul o mdot X k W) b))).
 
 (** ** PCA: [*targets = (records - &mean).dot(&embedding.t())]; the target shape is asserted *)
-Definition pca_row (mean : list F) (E : mat) (x : list F) : list F := map (fun e => mdot (map2 (sub o) x mean) e) E.
-Definition pca_default (E : mat (F := F)) (X : mat (F := F)) : mat := repeat (repeat (zero o) (length E)) (length X).
-Definition pca_inplace (p : nat) (mean : list F) (E : mat) (X : mat) (Y : mat) : option mat :=
+Definition pca_row (mean : list F) (E : mat F) (x : list F) : list F := map (fun e => mdot (map2 (sub o) x mean) e) E.
+Definition pca_default (E : mat F) (X : mat F) : mat F := repeat (repeat (zero o) (length E)) (length X).
+Definition pca_inplace (p : nat) (mean : list F) (E : mat F) (X : mat F) (Y : mat F) : option (mat F) :=
   guard (Nat.eqb (length Y) (length X) && rect (length E) Y)             (* assert_eq!(targets.shape(), [n, k]) *)
   (guard (rect p X && Nat.eqb p (length mean) && rect p E)
          (Some (matmul_t mdot (mat_op_row (sub o) X mean) E))).
 
 (** ** PLS: [x = x - &x_mean; x /= &x_std; *y = x.dot(&coefficients) + &y_mean] *)
-Definition pls_row (k : nat) (xm xs : list F) (Cf : mat) (ym : list F) (x : list F) : list F :=
+Definition pls_row (k : nat) (xm xs : list F) (Cf : mat F) (ym : list F) (x : list F) : list F :=
   map2 (add o) (map (fun c => mdot (map2 (div o) (map2 (sub o) x xm) xs) c) (columns o k Cf)) ym.
-Definition pls_default (k : nat) (X : mat (F := F)) : mat := repeat (repeat (zero o) k) (length X).
-Definition pls_inplace (p k : nat) (xm xs : list F) (Cf : mat) (ym : list F) (X : mat) (Y : mat) : option mat :=
+Definition pls_default (k : nat) (X : mat F) : mat F := repeat (repeat (zero o) k) (length X).
+Definition pls_inplace (p k : nat) (xm xs : list F) (Cf : mat F) (ym : list F) (X : mat F) (Y : mat F) : option (mat F) :=
   guard (Nat.eqb (length Y) (length X) && rect k Y)                       (* assert_eq!(y.shape(), [n, coefficients.ncols()]) *)
   (guard (rect p X && Nat.eqb p (length xm) && Nat.eqb p (length xs) && Nat.eqb p (length Cf) && rect k Cf
           && Nat.eqb k (length ym))
@@ -181,13 +182,92 @@ Definition pls_inplace (p k : nat) (xm xs : list F) (Cf : mat) (ym : list F) (X 
           let X2 := mat_op_row (div o) X1 xs in
           Some (mat_op_row (add o) (matmul o mdot X2 k Cf) ym))).
 
-(** ** naive Bayes (base_nb.rs): one joint-log-likelihood vector per class (classes in sorted
-    order), stacked as the rows of an (nclasses, n) array; [map_axis(Axis(0))] takes the arg-max of
-    every column.  [jll c X] is the class's vector over the batch. *)
-Definition nb_inplace {L Cls} (jll : Cls -> mat -> list F) (label : Cls -> L) (dflt : L) (classes : list Cls)
-    (X : mat) (y : list L) : option (list L) :=
+(** ** naive Bayes (base_nb.rs): one joint-log-likelihood vector per class (classes enumerated in
+    sorted order), stacked as the rows of an (nclasses, n) array; [map_axis(Axis(0))] takes the
+    arg-max of every column.  [jll c X] is the vector of class [c] over the whole batch. *)
+Definition nb_inplace {L Cls} (jll : Cls -> mat F -> list F) (dflt : L) (classes : list (L * Cls))
+    (X : mat F) (y : list L) : option (list L) :=
   guard (Nat.eqb (length X) (length y))
-    (let likelihood := map (fun c => jll c X) classes in
-     sequence (map (fun col => option_map (fun i => label (nth i classes (nth 0 classes (* never used *) (hd_error_default classes)) )) (argmax o col))
+    (let likelihood := map (fun c => jll (snd c) X) classes in
+     sequence (map (fun col => option_map (fun i => nth i (map fst classes) dflt) (argmax o col))
                    (columns o (length X) likelihood))).
+Definition nb_row {L Cls} (score : Cls -> list F -> F) (dflt : L) (classes : list (L * Cls)) (x : list F) : option L :=
+  option_map (fun i => nth i (map fst classes) dflt) (argmax o (map (fun c => score (snd c) x) classes)).
+
+(* multinomial: [x.dot(&info.feature_log_prob) + info.prior.ln()]; class data = (ln prior, feature_log_prob) *)
+Definition mnb_jll (c : F * list F) (X : mat F) : list F :=
+  vec_op_scalar (add o) (matvec o dot X (snd c) (uninit o (length X))) (fst c).
+Definition mnb_score (c : F * list F) (x : list F) : F := lin_row (snd c) (fst c) x.
+
+(* Gaussian: class data = (ln prior, (theta, sigma)); [lnf] is ln, the constants are F::cast(2 pi),
+   F::cast(-0.5), F::cast(0.5); [lanes] says whether [x.to_owned()] is row-major *)
+Context (lnf : F -> F) (twopi mhalf half : F).
+Definition gnb_nij (sigma : list F) : F :=
+  mul o mhalf (usum o (mapv lnf (mapv (fun s => mul o twopi s) sigma))).
+Definition gnb_jll (lanes : bool) (p : nat) (c : F * (list F * list F)) (X : mat F) : list F :=
+  let theta := fst (snd c) in
+  let sigma := snd (snd c) in
+  let nij := gnb_nij sigma in
+  let S := sum_axis1 o lanes p (mat_op_row (div o) (mat_mapv (fun d => mul o d d) (mat_op_row (sub o) X theta)) sigma) in
+  vec_op_scalar (add o) (mapv (fun s => sub o nij s) (mapv (fun s => mul o s half) S)) (fst c).
+Definition gnb_score (lanes : bool) (c : F * (list F * list F)) (x : list F) : F :=
+  let theta := fst (snd c) in
+  let sigma := snd (snd c) in
+  let q := map2 (div o) (map (fun d => mul o d d) (map2 (sub o) x theta)) sigma in
+  add o (sub o (gnb_nij sigma) (mul o (if lanes then usum o q else seq_sum o q) half)) (fst c).
+
+(** ** FTRL: [x.dot(&weights)], [mapv_inplace(stable_sigmoid)], [mapv(|v| Pr::new(to_f32(v)))], Zip copy *)
+Definition fmin (a b : F) : F := if ltb o b a then b else if eqb o a a then a else b.   (* a.min(b) *)
+Definition fmax (a b : F) : F := if ltb o a b then b else if eqb o a a then a else b.   (* a.max(b) *)
+Definition stable_sigmoid (expf : F -> F) (signneg : F -> bool) (c35 : F) (z : F) : F :=
+  let v := fmax (fmin z c35) (opp o c35) in
+  if signneg v then let e := expf v in div o e (add o e (one o))
+  else div o (one o) (add o (one o) (expf (opp o v))).
+Definition ftrl_prob (expf : F -> F) (signneg : F -> bool) (c35 : F) (w x : list F) : F :=
+  stable_sigmoid expf signneg c35 (mul o (dot x w) (one o)).
 End Predictors.
+
+Section Ftrl.
+Context {F G : Type} (oF : NumOps F) (oG : NumOps G) (dot : list F -> list F -> F).
+Context (expf : F -> F) (signneg : F -> bool) (c35 : F) (cast : F -> G).
+Definition ftrl_row (w x : list F) : option G := pr_new oG (cast (ftrl_prob oF dot expf signneg c35 w x)).
+Definition ftrl_inplace (p : nat) (w : list F) (X : mat F) (y : list G) : option (list G) :=
+  guard (Nat.eqb (length X) (length y))
+  (guard (Nat.eqb p (length w))                                           (* assert_eq!(x.ncols(), self.z.len()) *)
+  (guard (rect p X)
+     (let z := matvec oF dot X w (uninit oF (length X)) in
+      let s := mapv (stable_sigmoid oF expf signneg c35) z in
+      match sequence (map (fun v => pr_new oG (cast v)) s) with
+      | None => None
+      | Some probabilities => Some (loop_zip (fun pr => pr) probabilities y)
+      end))).
+End Ftrl.
+
+(** ** SVM: [for (row, target) in data.outer_iter().zip(targets.iter_mut())] with the decision value
+    [weighted_sum(row) - rho]; k-means, decision tree: the same loop shape with their row function *)
+Section LoopPredictors.
+Context {Row L : Type}.
+Definition zip_inplace (f : Row -> L) (X : list Row) (y : list L) : option (list L) :=
+  guard (Nat.eqb (length X) (length y)) (Some (loop_zip f X y)).
+Definition zip_inplace_opt (f : Row -> option L) (X : list Row) (y : list L) : option (list L) :=
+  guard (Nat.eqb (length X) (length y)) (loop_zip_opt f X y).
+End LoopPredictors.
+
+Section Svm.
+Context {F : Type} (o : NumOps F).
+(* SeparatingHyperplane::Linear(w): [w.mul(sample).sum()] - an element-wise product collected into a
+   fresh contiguous array, summed by [unrolled_fold] whatever the layout of the sample *)
+Definition svm_linear_wsum (w x : list F) : F := usum o (map2 (mul o) w x).
+Definition svm_value (wsum : list F -> F) (rho : F) (x : list F) : F := sub o (wsum x) rho.
+Definition svm_label (wsum : list F -> F) (rho : F) (x : list F) : bool := leb o (zero o) (svm_value wsum rho x).
+End Svm.
+
+(** ** isotonic regression: [assert_eq!(dim, 1)], the length assertion, then the indexed loop in
+    which an iteration may leave [y[i]] untouched *)
+Section Iso.
+Context {F : Type} (o : NumOps F).
+Definition iso_inplace (reg resp : list F) (X : mat F) (y : list F) : option (list F) :=
+  guard (rect 1 X)
+  (guard (Nat.eqb (length X) (length y))
+     (Some (loop_indexed (fun row => iso_value o reg resp (nth 0 row (zero o))) X y))).
+End Iso.
